@@ -54,7 +54,7 @@ func init() {
 			"the sent set is retried before the buffered messages of the same partition and the bounce state (currentRetries / closing) is set on the same path (C02.sent-before-buffered); parked buffers are flushed in index order and cleared, and highWatermark is written only by newHighWatermark/flushRetryBuffers (C02.flush); " +
 			"one produce request in flight per broker worker: unbuffered bridge, synchronous Produce, tabled senders on brokerProducer.output (C02.single-flight); the retry queue is used strictly FIFO (C02.fifo). " +
 			"NOT covered: the interleaving argument itself, reordering with Retry.Max=0 / abandoned brokers (value- and schedule-dependent).",
-		Rules: []func(*Ctx){c02RouteOnce, c02SentBeforeBuffered, c02Flush, c02SingleFlight, c02Fifo},
+		Rules: []func(*Ctx){c02RouteOnce, c02SentBeforeBuffered, c02Recheck, c02Flush, c02SingleFlight, c02Fifo},
 	})
 }
 
@@ -407,5 +407,46 @@ func c02Fifo(c *Ctx) {
 		add := p.CallWith(q+"Add", 1, func(v ssa.Value) bool { return true })
 		it, _ := reg.Reach(add, nil)
 		c.Check(it.IsZero(), rule, fn, "no-add-on-send-path", sends[0].Instr(), "no Add on the path that sent the head", "Add executed on the send path: stale message re-queued", nil)
+	}
+}
+
+// c02Recheck: handling a response can put the message's partition into the bounce state; whoever holds a
+// message across handleResponse must ask needsRetry(msg) again before letting it through.
+func c02Recheck(c *Ctx) {
+	p := c.P
+	rule := "C02.recheck"
+	c.Doc(rule, "brokerProducer.run buffers a message only after needsRetry(msg) == nil; waitForSpace, which handles responses while it holds a message, returns nil after a handleResponse only across a fresh needsRetry(msg) == nil test (per-partition bounce state included, not only bp.closing)")
+	c.Floor(rule, 2)
+	clear := func(msg VM) Pred {
+		return Cmp{token.EQL, func(v ssa.Value) bool {
+			cl, ok := v.(*ssa.Call)
+			return ok && p.CalleeName(&cl.Call) == "brokerProducer.needsRetry" && len(cl.Call.Args) == 2 && msg(cl.Call.Args[1])
+		}, IsNil()}
+	}
+	if fn := c.NeedFn(rule, "brokerProducer.waitForSpace"); fn != nil {
+		reg := WholeFn(fn)
+		hr := reg.Find(p.CallTo("brokerProducer.handleResponse"))
+		if len(hr) == 0 {
+			c.Unresolved(rule, "handleResponse call in waitForSpace")
+		}
+		for _, h := range hr {
+			r2 := *reg.From(h.After())
+			pr := clear(ParamN(1))
+			r2.Cut = func(from, to *ssa.BasicBlock) bool { return Establishes(from, to, pr) }
+			it, path := r2.Reach(ReturnNilErr(), nil)
+			c.Check(it.IsZero(), rule, fn, "recheck-after-response", h.Instr(), "after handling a response the waiting message is re-checked with needsRetry(msg) before it is let through",
+				"waitForSpace can return nil after handling a response without re-checking needsRetry(msg) (which includes the per-partition bounce state): the parked message is buffered and sent ahead of the earlier messages of its partition that are still on the retry path", path)
+		}
+	}
+	if fn := c.NeedFn(rule, "brokerProducer.run"); fn != nil {
+		fi := Info(fn)
+		if len(fi.Loops) > 0 {
+			reg := fi.Iteration(fi.Loops[0])
+			for _, a := range reg.Find(p.CallTo("produceSet.add")) {
+				msg := callArgs(a)[1]
+				g, path := reg.Guarded(a, clear(Same(msg)))
+				c.Check(g, rule, fn, "needsRetry-before-add", a.Instr(), "a message is buffered only after needsRetry(msg) == nil", "a message can be buffered without the needsRetry test: it overtakes the bounced messages of its partition", path)
+			}
+		}
 	}
 }
